@@ -29,6 +29,15 @@ def case(c):
         e, etxt = {"k": "un", "op": c["op"], "e": l}, "(%s%s)" % ("!" if c["op"] == "not" else "-", ltxt)
     elif c["form"] == "cast":
         e, etxt = {"k": "cast", "to": TARGETS[c["op"]], "e": l}, "(%s as %s)" % (ltxt, c["op"])
+    elif c["form"] == "postfix":
+        op = c["op"]
+        if op.startswith("tup"):
+            e, etxt = {"k": "tupacc", "e": l, "i": int(op[3:])}, "(%s).%s" % (ltxt, op[3:])
+        elif op.startswith("field"):
+            e, etxt = {"k": "sacc", "e": l, "f": op[6:]}, "(%s).%s" % (ltxt, op[6:])
+        else:
+            idx, itxt = {"index0": ({"k": "num", "v": 0, "ty": T("usize")}, "0usize"), "index_u8": ({"k": "num", "v": 0, "ty": T("u8")}, "0u8"), "index_var": ({"k": "var", "n": "p_z"}, "p_z")}[op]
+            e, etxt = {"k": "idx", "a": l, "i": idx}, "(%s)[%s]" % (ltxt, itxt)
     else:  # opassign on a mutable copy of the left operand
         r, rtxt = operand(c["r"])
         stmts = [{"k": "letmut", "n": "m", "e": l}, {"k": "opassign", "n": "m", "acc": [], "op": c["op"], "e": r}]
